@@ -4,7 +4,10 @@
 //!                          | {"kind":"gen","wb":{..workbook description, see `build`..}}
 //!                          | {"kind":"hex","hex":"<the bytes of a file built by checks/c04.py from a TLC behaviour>","name":".."},
 //!         "gens": 3, "light": false,
-//!         "edit": [] | [{"si": 0-based sheet pick, "mode": "existing"|"at"|"class" (+ "class": a cell class, see run), "pick": n, "r": .., "c": ..,
+//!         "edit": [] | [{"si": 0-based sheet pick, "mode": "existing"|"at"|"class" (+ "class": a cell class, see run)
+//!                        |"echo" (+ "echo": "plain-of-rich"|"rich-of-plain"|"rich-of-rich", "where": "before"|"after": the cell
+//!                        next to the pick-th rich / plain string cell gets the same characters in the other kind / in other runs;
+//!                        without such a cell the edit falls back to mode "at"), "pick": n, "r": .., "c": ..,
 //!                        "k": "text"|"num"|"bool"|"formula", "v": "..", "b": "<16 hex digits>"}]}
 //!
 //! Protocol of one case (every step is one event; the driver never judges):
@@ -914,7 +917,58 @@ fn run(case: &Value) -> Vec<Value> {
         let si = (u(ed, "si") as usize) % ns;
         let r = catch_unwind(AssertUnwindSafe(|| -> (u32, u32, Value, Value, Value) {
             let ws = book.get_sheet_mut(&si).expect("sheet");
-            let (col, row) = if so(ed, "mode") == "existing" && !ws.get_cell_collection().is_empty() {
+            // mode "echo": the edit repeats the characters of an existing string cell in another kind / run structure,
+            // right before or right behind that cell in writing order (row by row)
+            let mut echo_runs: Option<Vec<(String, bool, bool)>> = None; // Some(vec![]) = plain text in `echo_text`
+            let mut echo_text = String::new();
+            let mut echo_at: Option<(u32, u32)> = None;
+            if so(ed, "mode") == "echo" {
+                let what = so(ed, "echo");
+                let src_kind = if what == "rich-of-plain" { "text" } else { "rich" };
+                let mut hits: Vec<(u32, u32)> = ws
+                    .get_cell_collection()
+                    .iter()
+                    .filter(|c| kind_of(c.get_raw_value()) == src_kind && c.get_formula().is_empty() && c.get_value().chars().count() >= 2)
+                    .map(|c| (*c.get_coordinate().get_row_num(), *c.get_coordinate().get_col_num()))
+                    .collect();
+                hits.sort();
+                if !hits.is_empty() {
+                    let (sr, sc) = hits[(u(ed, "pick") as usize) % hits.len()];
+                    let src = ws.get_cell((sc, sr)).expect("source cell");
+                    echo_text = src.get_value().to_string();
+                    let chars: Vec<char> = echo_text.chars().collect();
+                    let old_runs: Vec<String> = match src.get_raw_value() {
+                        CellRawValue::RichText(r) => r.get_rich_text_elements().iter().map(|t| t.get_text().to_string()).collect(),
+                        _ => vec![],
+                    };
+                    echo_runs = Some(match what {
+                        "plain-of-rich" => vec![],
+                        "rich-of-plain" => {
+                            let h = chars.len() / 2;
+                            vec![(chars[..h].iter().collect(), true, false), (chars[h..].iter().collect(), false, false)]
+                        }
+                        _ => {
+                            // other run boundaries and other fonts than the source
+                            if old_runs.len() == 1 {
+                                vec![(chars[..1].iter().collect(), false, true), (chars[1..].iter().collect(), true, true)]
+                            } else {
+                                vec![(echo_text.clone(), true, true)]
+                            }
+                        }
+                    });
+                    let before = so(ed, "where") == "before";
+                    echo_at = Some(if before && sc > 1 {
+                        (sc - 1, sr)
+                    } else if before && sr > 1 {
+                        (sc, sr - 1)
+                    } else {
+                        (sc + 1, sr)
+                    });
+                }
+            }
+            let (col, row) = if let Some(at) = echo_at {
+                at
+            } else if so(ed, "mode") == "existing" && !ws.get_cell_collection().is_empty() {
                 let cells = ws.get_cell_collection_sorted();
                 let c = cells[(u(ed, "pick") as usize) % cells.len()];
                 (*c.get_coordinate().get_col_num(), *c.get_coordinate().get_row_num())
@@ -969,7 +1023,25 @@ fn run(case: &Value) -> Vec<Value> {
                 orphans = others.into_iter().map(|(r, c)| json!({"r": cl(r), "c": cl(c)})).collect();
             }
             let cell = ws.get_cell_mut((col, row));
-            match so(ed, "k") {
+            let kind = if echo_at.is_some() { "echo" } else { so(ed, "k") };
+            match kind {
+                "echo" => {
+                    let runs = echo_runs.clone().unwrap_or_default();
+                    if runs.is_empty() {
+                        cell.set_value_string(echo_text.clone());
+                    } else {
+                        let mut rt = RichText::default();
+                        for (t, bold, italic) in runs {
+                            let mut te = TextElement::default();
+                            te.set_text(t);
+                            let f = te.get_font_mut();
+                            f.set_bold(bold);
+                            f.set_italic(italic);
+                            rt.add_rich_text_elements(te);
+                        }
+                        cell.set_rich_text(rt);
+                    }
+                }
                 "text" => {
                     cell.set_value_string(so(ed, "v"));
                 }
@@ -988,11 +1060,12 @@ fn run(case: &Value) -> Vec<Value> {
             }
             let mut st = Styles::new();
             let pc = project_cell(ws.get_cell((col, row)).expect("edited cell"), &mut st);
-            (col, row, pc, st.to_json(), Value::Array(orphans))
+            (col, row, pc, st.to_json(), json!({"orphans": orphans, "echoed": echo_at.is_some()}))
         }));
         match r {
-            Ok((col, row, pc, sty, orphans)) => {
-                m.insert("orphans".into(), orphans);
+            Ok((col, row, pc, sty, more)) => {
+                m.insert("orphans".into(), more["orphans"].clone());
+                m.insert("echoed".into(), more["echoed"].clone());
                 m.insert("s".into(), json!(si + 1));
                 m.insert("r".into(), json!(cl(row)));
                 m.insert("c".into(), json!(cl(col)));
@@ -1008,6 +1081,7 @@ fn run(case: &Value) -> Vec<Value> {
                 m.insert("cell".into(), json!({"r": 0, "c": 0, "k": "blank", "v": "", "b": "", "f": "", "rt": "", "s": ""}));
                 m.insert("sty".into(), json!([]));
                 m.insert("orphans".into(), json!([]));
+                m.insert("echoed".into(), json!(false));
                 m.insert("outcome".into(), json!("edit-panic"));
                 events.push(Value::Object(m));
                 return events;
